@@ -861,6 +861,18 @@ func (vm *VM) xOpSetupCatch() {
 	vm.stack[vm.sp] = value
 	vm.sp++
 	//Either OpSetLocal or OpPop is generated by compiler to handle error
+
+	// The catch clause binds a new variable every time it is entered. The
+	// compiler emits OpSetLocal for it as the try statement declared the
+	// identifier, but the slot may still hold the pointer of a variable that a
+	// closure captured (the identifier of an earlier execution or a variable
+	// of a block that ended); the error must not be assigned through it.
+	if vm.curInsts[vm.ip+1] == OpSetLocal {
+		index := vm.curFrame.basePointer + int(vm.curInsts[vm.ip+2])
+		if _, ok := vm.stack[index].(*ObjectPtr); ok {
+			vm.stack[index] = Undefined
+		}
+	}
 }
 
 func (vm *VM) xOpSetupFinally() {
